@@ -743,7 +743,11 @@ class BlockBase(Base):
             while i < len(classes):
                 if enable_do_label_construct_hook:
                     # Multiple, labelled DO statements can reference the
-                    # same label.
+                    # same label. Any comments that precede such a statement
+                    # belong to this block (otherwise they would be taken as
+                    # the start of a nested construct which then swallows
+                    # the shared terminating statement).
+                    DynamicImport.add_comments_includes_directives(content, reader)
                     obj = startcls(reader)
                     if obj is not None and hasattr(obj, "get_start_label"):
                         if start_label == obj.get_start_label():
